@@ -55,6 +55,12 @@ def sparse_matrix_data_to_csc(data_tuples):
         A_vals += A_v
         row_index_offset += num_rows
     A_rows = np.hstack([d[1] for d in data_tuples]).astype(int)
+    # Entries with value zero are placeholders (constant rows are padded with one,
+    # at an arbitrary column index). They must not decide which columns exist.
+    A_vals = np.array(A_vals, dtype=float)
+    A_cols = np.array(A_cols, dtype=int)
+    nonzero = A_vals != 0
+    A_vals, A_rows, A_cols = A_vals[nonzero], A_rows[nonzero], A_cols[nonzero]
 
     unique_cols = np.sort(np.unique(A_cols))
     index_map = defaultdict(lambda: -1)
@@ -64,7 +70,7 @@ def sparse_matrix_data_to_csc(data_tuples):
     #   whose parent Variable participates in an optimization problem,
     #   even when the ScalarVariable itself does not appear in the problem.
     A_cols = np.array([index_map[ac] for ac in A_cols])
-    num_rows = np.max(A_rows) + 1
+    num_rows = row_index_offset
     num_cols = unique_cols.size
     A = sp.csc_matrix((A_vals, (A_rows, A_cols)),
                       shape=(int(num_rows), int(num_cols)), dtype=float)
